@@ -18,7 +18,7 @@ fn min_len(subject: &str) -> u64 {
 }
 
 pub fn pick_len(rng: &mut Rng, subject: &str, big: bool) -> u64 {
-	let maxp = PeriodType::MAX as u64;
+	let maxp = maxp();
 	let lo = min_len(subject);
 	let hi = if subject == "WSMA" { maxp / 2 } else { maxp - 1 };
 	let n = if big {
